@@ -15,7 +15,7 @@
 (* Leb128_MC.tla checks these bit-string definitions against the            *)
 (* arithmetic algorithms printed in the DWARF appendix, exhaustively on a   *)
 (* small domain; Leb128_Eval.tla judges recorded calls of the real code.    *)
-EXTENDS BitSeq
+EXTENDS BitSeq, SequencesExt
 
 Byte     == 0..255
 Low7(b)  == b % 128                 \* payload group of a byte
@@ -30,17 +30,33 @@ WellFormed(bs) ==
     /\ \A k \in 1..Len(bs) : Cont(bs[k]) <=> k < Len(bs)
 
 \* the first well-formed prefix of a byte stream (0 if none: truncated stream)
-PrefixLen(bs) ==
-    LET ends == {k \in 1..Len(bs) : ~Cont(bs[k])}
-    IN IF ends = {} THEN 0 ELSE MinOf(ends)
+IsFinal(b) == ~Cont(b)
+PrefixLen(bs) == SelectInSeq(bs, IsFinal)
 
 \* the 7*len payload bits, least significant first
 Payload(bs) ==
     [k \in 1..(7 * Len(bs)) |-> (Low7(bs[((k - 1) \div 7) + 1]) \div Pow2((k - 1) % 7)) % 2]
 
+\* ---- wide bit strings ------------------------------------------------------
+\* BitSeq's Neg / Norm recurse once per bit; numbers here have hundreds of bits,
+\* so the same functions are restated without recursion (SelectInSeq and
+\* SelectLastInSeq are iterative).  Leb128_MC checks WNeg = Neg, WNorm = Norm.
+IsOne(x)      == x = 1
+LowestOne(b)  == SelectInSeq(b, IsOne)          \* 0 if there is none
+HighestOne(b) == SelectLastInSeq(b, IsOne)
+WNorm(b) == SubSeq(b, 1, HighestOne(b))
+\* two's complement: bits above the lowest 1 are inverted
+WNeg(b)  == LET lo == LowestOne(b) IN
+            [i \in 1..Len(b) |-> IF lo # 0 /\ i > lo THEN 1 - b[i] ELSE b[i]]
+\* z mod 2^w as a w-bit string; a w-bit string read as unsigned / two's complement
+ToBits(z, w)  == IF z.neg THEN WNeg(ZExt(z.mag, w)) ELSE ZExt(z.mag, w)
+UnsignedOf(u) == [neg |-> FALSE, mag |-> WNorm(u)]
+SignedOf(u)   == IF Len(u) > 0 /\ u[Len(u)] = 1 THEN [neg |-> TRUE, mag |-> WNorm(WNeg(u))]
+                 ELSE [neg |-> FALSE, mag |-> WNorm(u)]
+
 \* ---- decoding (total on well-formed sequences, minimal or not) ---------
-DecU(bs) == BVToUnsignedZ(Payload(bs))
-DecS(bs) == BVToSignedZ(Payload(bs))
+DecU(bs) == UnsignedOf(Payload(bs))
+DecS(bs) == SignedOf(Payload(bs))
 
 \* ---- canonical encoding --------------------------------------------------
 \* k groups hold an unsigned value < 2^(7k), a signed value in [-2^(7k-1), 2^(7k-1))
@@ -58,7 +74,7 @@ Pack(bits, k) ==
     [j \in 1..k |-> Val(SubSeq(bits, 7 * (j - 1) + 1, 7 * j)) + (IF j < k THEN 128 ELSE 0)]
 
 EncU(z) == LET k == GroupsU(z) IN Pack(ZExt(z.mag, 7 * k), k)          \* z >= 0 only
-EncS(z) == LET k == GroupsS(z) IN Pack(ZToUnsigned(z, 7 * k), k)
+EncS(z) == LET k == GroupsS(z) IN Pack(ToBits(z, 7 * k), k)
 
 \* closed forms of the group counts (laws checked in Leb128_MC)
 GroupsUClosed(z) == IF z.mag = <<>> THEN 1 ELSE (Len(z.mag) + 6) \div 7
